@@ -5,6 +5,7 @@ import (
 	"go/constant"
 	"go/token"
 	"go/types"
+	"sort"
 	"strings"
 
 	"golang.org/x/tools/go/ssa"
@@ -189,45 +190,70 @@ func ruleRowsFit(w *World, r *Report, pfx string) {
 	}
 	bad := ""
 	nApp := 0
-	for _, b := range fi.Fn.Blocks {
-		for _, in := range b.Instrs {
-			c, ok := in.(*ssa.Call)
-			if !ok || !isBuiltinCall(&c.Call, "append") {
-				continue
-			}
-			if _, ok := c.Type().Underlying().(*types.Slice).Elem().Underlying().(*types.Interface); !ok {
-				continue // not the []io.Reader row list
-			}
-			nApp++
-			rows := c.Call.Args[0]
-			// the block must be the true successor of a bound test on len(rows)
-			okBound := false
-			var other *ssa.BasicBlock
-			for _, x := range fi.Fn.Blocks {
-				ifi, ok := x.Instrs[len(x.Instrs)-1].(*ssa.If)
-				if !ok || !(x.Succs[0] == b || (x.Succs[0].Dominates(b) && len(x.Succs[0].Preds) == 1)) {
-					continue
-				}
-				if boundsRows(ifi.Cond, rows, heightP) {
-					okBound = true
-					other = x.Succs[1]
-				}
-			}
-			if !okBound {
-				bad = "a row is appended without the atom len(rows) < height-1: rows are terminated by new lines, so height rows scroll the topmost bar into the scrollback (and more rows than the height push bar rows off screen)"
-				continue
-			}
-			// the other branch drains the clipped reader
-			drains := false
-			if other != nil {
-				for _, in2 := range other.Instrs {
-					if c2, ok := in2.(*ssa.Call); ok && c2.Call.StaticCallee() != nil && c2.Call.StaticCallee().String() == "io.Copy" {
-						drains = true
+	// flush and its private helpers; in a helper the height is the parameter that flush passes its own height to
+	var fns []*ssa.Function
+	for f := range w.unit(fi.Fn) {
+		fns = append(fns, f)
+	}
+	sort.Slice(fns, func(i, j int) bool { return fns[i].Pos() < fns[j].Pos() })
+	flushHeight := heightP
+	for _, fn := range fns {
+		heightP := flushHeight
+		if fn != fi.Fn {
+			heightP = nil
+			for i, par := range fn.Params {
+				sites := w.callers[fn]
+				all := len(sites) > 0
+				for _, site := range sites {
+					if site.Parent() != fi.Fn || i >= len(site.Common().Args) || w.origin(site.Common().Args[i]) != flushHeight {
+						all = false
 					}
 				}
+				if all {
+					heightP = par
+				}
 			}
-			if !drains {
-				bad = "a clipped row is not drained: the bar's buffers keep its bytes and prepend them to the next frame's row"
+		}
+		for _, b := range fn.Blocks {
+			for _, in := range b.Instrs {
+				c, ok := in.(*ssa.Call)
+				if !ok || !isBuiltinCall(&c.Call, "append") {
+					continue
+				}
+				if _, ok := c.Type().Underlying().(*types.Slice).Elem().Underlying().(*types.Interface); !ok {
+					continue // not the []io.Reader row list
+				}
+				nApp++
+				rows := c.Call.Args[0]
+				// the block must be the true successor of a bound test on len(rows)
+				okBound := false
+				var other *ssa.BasicBlock
+				for _, x := range fn.Blocks {
+					ifi, ok := x.Instrs[len(x.Instrs)-1].(*ssa.If)
+					if !ok || !(x.Succs[0] == b || (x.Succs[0].Dominates(b) && len(x.Succs[0].Preds) == 1)) {
+						continue
+					}
+					if heightP != nil && boundsRows(ifi.Cond, rows, heightP) {
+						okBound = true
+						other = x.Succs[1]
+					}
+				}
+				if !okBound {
+					bad = "a row is appended without the atom len(rows) < height-1: rows are terminated by new lines, so height rows scroll the topmost bar into the scrollback (and more rows than the height push bar rows off screen)"
+					continue
+				}
+				// the other branch drains the clipped reader
+				drains := false
+				if other != nil {
+					for _, in2 := range other.Instrs {
+						if c2, ok := in2.(*ssa.Call); ok && c2.Call.StaticCallee() != nil && c2.Call.StaticCallee().String() == "io.Copy" {
+							drains = true
+						}
+					}
+				}
+				if !drains {
+					bad = "a clipped row is not drained: the bar's buffers keep its bytes and prepend them to the next frame's row"
+				}
 			}
 		}
 	}
